@@ -6,6 +6,7 @@ CONSTANTS
   MaxViews = 4
   MaxAccs = 2
   Mode = "c16"
+  AccSet = "wide"
   SubVariants = "small"
   MaxHist = 14
 SPECIFICATION MCSpec
